@@ -648,7 +648,7 @@ def translate_fn(f, out):
             else:
                 joined.append(s)
         blocks[b] = joined
-    NEW_TYPES.clear(); I8SRC.clear(); P2I.clear(); LOADSRC.clear(); GEPK.clear(); ICMPX.clear()
+    NEW_TYPES.clear(); I8SRC.clear(); P2I.clear(); LOADSRC.clear(); GEPK.clear(); ICMPX.clear(); PROV.clear()
     for ln_ in f.body:
         m_ = re.match(r'\s*%\S+ = bitcast i8\* (%[-\w.$]+) to (%"[^"]+"|%[-\w.$]+)\*\s*(,|$)', ln_)
         if m_ and m_.group(1) not in NEW_TYPES:
@@ -718,6 +718,7 @@ def translate_fn(f, out):
                     decls[arr] = ('typed', layout_ctype(t))
                     decls[local(dst)] = 'char*'
                     emit('%s = (char*)&%s;' % (local(dst), arr))
+                    PROV[local(dst)] = (t, 0)
                 else:
                     decls[arr] = ('char', max(sz * cnt, 1))
                     decls[local(dst)] = 'char*'
@@ -730,7 +731,11 @@ def translate_fn(f, out):
                     nb = rt_.bits // 8
                     setv(t, '({ char* s_ = %s; (%s)(%s); })' % (a.c, ctype(t), ' | '.join('((uint64_t)*(uint8_t*)(s_+%d) << %d)' % (i, 8 * i) for i in range(nb))))
                 else:
-                    setv(t, '*(%s*)%s' % (ctype(t), a.c))
+                    sp_ = split_access(a.c, rt_)
+                    if sp_:
+                        setv(t, '(%s)(%s)' % (ctype(t), ' | '.join('((uint64_t)*(%s*)(%s + (%d)) << %d)' % (ctype(lt_), a.c, lo_, sh_) for lo_, lt_, sh_ in sp_)))
+                    else:
+                        setv(t, '*(%s*)%s' % (ctype(t), a.c))
                 if dst: LOADSRC[local(dst)] = a.c
             elif op == 'store':
                 p.accept('volatile'); p.accept('atomic')
@@ -740,20 +745,30 @@ def translate_fn(f, out):
                     nb = rt_.bits // 8
                     emit('{ char* d_ = %s; uint64_t x_ = %s; %s }' % (a.c, v.c, ' '.join('*(uint8_t*)(d_+%d) = (uint8_t)(x_ >> %d);' % (i, 8 * i) for i in range(nb))))
                 else:
-                    emit('*(%s*)%s = %s;' % (ctype(t), a.c, v.c))
+                    sp_ = split_access(a.c, rt_)
+                    if sp_:
+                        emit('{ uint64_t x_ = (uint64_t)(%s); %s }' % (v.c, ' '.join('*(%s*)(%s + (%d)) = (%s)(x_ >> %d);' % (ctype(lt_), a.c, lo_, ctype(lt_), sh_) for lo_, lt_, sh_ in sp_)))
+                    else:
+                        emit('*(%s*)%s = %s;' % (ctype(t), a.c, v.c))
             elif op == 'getelementptr':
                 p.accept('inbounds')
                 bt = p.type(); p.expect(','); pt = p.type(); base = operand(p, pt, f)
                 idx = []
                 while p.accept(','):
                     it = p.type(); idx.append(operand(p, it, f))
-                setv(PtrT(IntT(8)), gep_expr(bt, base, idx))
+                ge_ = gep_expr(bt, base, idx)
+                setv(PtrT(IntT(8)), ge_)
+                if dst and base.c in PROV:
+                    mg_ = re.fullmatch(r'\(%s \+ \((-?\d+)\)\)' % re.escape(base.c), ge_)
+                    if ge_ == base.c: PROV[local(dst)] = PROV[base.c]
+                    elif mg_ and PROV[base.c][1] + int(mg_.group(1)) >= 0: PROV[local(dst)] = (PROV[base.c][0], PROV[base.c][1] + int(mg_.group(1)))
                 if dst and len(idx) == 1:
                     mk_ = re.fullmatch(r'\(\(\w+\)(\d+)ULL\)', idx[0].c)
                     if mk_: GEPK[local(dst)] = (base.c, int(mk_.group(1)) * size_of(bt))
             elif op in ('bitcast', 'inttoptr', 'ptrtoint', 'trunc', 'zext', 'sext', 'uitofp', 'sitofp', 'fptoui', 'fptosi', 'fpext', 'fptrunc', 'addrspacecast'):
                 st = p.type(); x = operand(p, st, f); p.expect('to'); dt = p.type()
                 setv(dt, cast_expr(op, x, dt))
+                if op == 'bitcast' and dst and x.c in PROV: PROV[local(dst)] = PROV[x.c]
                 if op == 'ptrtoint' and dst and resolve(dt).bits == 64: P2I[local(dst)] = x.c
                 if op == 'bitcast' and dst and isinstance(resolve(st), PtrT) and isinstance(resolve(dt), PtrT) and not isinstance(resolve(resolve(st).to), (IntT, FuncT, OpaqueT)):
                     I8SRC[local(dst)] = resolve(st).to
@@ -1007,6 +1022,28 @@ def leaves(t, base):
         return out
     return [(base, r)]
 NEW_TYPES = {}
+PROV = {}    # local pointer -> (LLVM type of the typed alloca it points into, constant byte offset)
+def split_access(ptr, rt_):
+    """An integer load/store through a pointer with known provenance (typed alloca + constant offset) that does not coincide with one scalar field
+    but covers several whole integer fields (e.g. a pair returned in registers and spilled with one 64-bit store): returns [(delta, leaf type, shift)]
+    so that the access is emitted field by field.  CBMC's simplifier folds field-typed accesses of constants, but not a wide byte_extract over a struct
+    that also spans (uninitialised) padding - which made std::map keys built by libtins symbolic.  Padding bytes covered by the access read as 0 / are not written."""
+    if ptr not in PROV or not isinstance(rt_, IntT) or rt_.bits not in (16, 32, 64): return None
+    t0, off = PROV[ptr]
+    n = rt_.bits // 8
+    try: lv = leaves(t0, 0)
+    except Exception: return None
+    inside = []
+    for lo, lt in lv:
+        ls = size_of(lt)
+        if ls == 0 or lo + ls <= off or lo >= off + n: continue
+        if lo < off or lo + ls > off + n: return None          # a field straddles the access: leave it to CBMC
+        if not isinstance(lt, IntT) or lt.bits not in (8, 16, 32, 64): return None
+        inside.append((lo - off, lt, 8 * (lo - off)))
+    if len(inside) < 2: return None                              # exact match (or only padding): nothing to split
+    if all(lt.bits == 8 for _, lt, _ in inside): return None     # byte arrays are handled well as they are
+    return inside
+
 def phi_goto(frm, to):
     return '/*PHI %s -> %s*/' % (frm, to)
 
